@@ -120,6 +120,11 @@ def check_class(ctx, prog, ci, label=None, external_state=()):
             elif isinstance(t, ast.UnaryOp) and isinstance(t.op, ast.Not) and isinstance(t.operand, ast.Call) and \
                     call_name(t.operand) == "hasattr" and len(t.operand.args) == 2 and isinstance(t.operand.args[1], ast.Constant):
                 memo = t.operand.args[1].value
+            elif isinstance(t, ast.Compare) and len(t.ops) == 1 and isinstance(t.ops[0], (ast.Is, ast.Eq)) and \
+                    isinstance(t.left, ast.Call) and call_name(t.left) == "getattr" and len(t.left.args) >= 2 and \
+                    isinstance(t.left.args[0], ast.Name) and t.left.args[0].id == "self" and isinstance(t.left.args[1], ast.Constant) and \
+                    isinstance(t.comparators[0], ast.Constant) and t.comparators[0].value is None:
+                memo = t.left.args[1].value                 # getattr(self, '_x', None) is None
             if memo is None:
                 continue
             fills = [x for x in st.body if isinstance(x, ast.Assign) and any(is_self_attr(tt, memo) for tt in x.targets)]
